@@ -85,11 +85,16 @@ impl WG {
         }
         json!({"order": self.n, "arcs": arcs})
     }
+    /// Half of the digraphs (odd arc count) are built through a history that first
+    /// gives every arc another weight and then re-adds it with the real one.
     pub fn build_wu(&self) -> WU {
         let mut d = WU::empty(self.n);
         for u in 0..self.n {
             for v in 0..self.n {
                 if self.has[u][v] {
+                    if self.arcs % 2 == 1 {
+                        d.add_arc_weighted(u, v, self.w[u][v] as usize + 7);
+                    }
                     d.add_arc_weighted(u, v, self.w[u][v] as usize);
                 }
             }
@@ -101,6 +106,9 @@ impl WG {
         for u in 0..self.n {
             for v in 0..self.n {
                 if self.has[u][v] {
+                    if self.arcs % 2 == 1 {
+                        d.add_arc_weighted(u, v, self.w[u][v] as isize - 9);
+                    }
                     d.add_arc_weighted(u, v, self.w[u][v] as isize);
                 }
             }
@@ -369,6 +377,7 @@ pub fn c03(tier: &str, seed: u64) -> Check {
         spaces.push(c03_space(4, &A013, 6, 1));
     }
     spaces.push(crate::props::fam::c03_family(thorough));
+    spaces.push(crate::props::large::c03_big(thorough));
     let report = super::report(
         "C03",
         tier,
@@ -713,6 +722,7 @@ pub fn c05(tier: &str, seed: u64) -> Check {
         spaces.push(c05_dij_space(4, &A013, 1));
     }
     spaces.push(crate::props::fam::c05_family(thorough));
+    spaces.push(crate::props::large::c05_big(thorough));
     let report = super::report(
         "C05",
         tier,
@@ -878,7 +888,9 @@ pub fn c08_case_checked(g: &WG, ctx: &mut Ctx) {
     let det = || json!({"digraph": g.json()});
     let r = guarded(|| {
         let mut fw = FloydWarshall::new(&d);
+        let first = fw.distances().clone();
         let m = fw.distances();
+        assert!(first == *m, "FloydWarshall::distances() called twice on one object gives different matrices");
         let mut out = [[0isize; NMAX]; NMAX];
         for u in 0..g.n {
             for v in 0..g.n {
